@@ -2,6 +2,7 @@ package resolvers
 
 import (
 	"context"
+	"sort"
 
 	"github.com/MichaelMure/git-bug/api/auth"
 	"github.com/MichaelMure/git-bug/api/graphql/connections"
@@ -102,8 +103,11 @@ func (repoResolver) AllIdentities(_ context.Context, obj *models.Repository, aft
 		Last:   last,
 	}
 
-	// Simply pass a []string with the ids to the pagination algorithm
+	// Simply pass a []string with the ids to the pagination algorithm.
+	// AllIds comes in map order, which differs from one request to the next: sort it, so
+	// that the cursors of one page designate the same elements in the next request.
 	source := obj.Repo.Identities().AllIds()
+	sort.Slice(source, func(i, j int) bool { return source[i] < source[j] })
 
 	// The edger create a custom edge holding just the id
 	edger := func(id entity.Id, offset int) connections.Edge {
